@@ -420,10 +420,20 @@ func Materialise(w *Workload, dir string) ([]string, error) {
 		}
 		data := w.Inputs[i].Data
 		if w.Inputs[i].Gz && w.Cfg.Gunzip {
+			// one gzip member, or (every third compressed input) the same bytes as two or three members one after the
+			// other, the way `cat a.gz b.gz` and log shippers that append compressed chunks write them
 			var zb bytes.Buffer
-			zw := gzip.NewWriter(&zb)
-			zw.Write(data)
-			zw.Close()
+			cuts := []int{len(data)}
+			if (i+len(data))%3 == 0 && len(data) >= 3 {
+				cuts = []int{len(data) / 3, len(data) - len(data)/4, len(data)}
+			}
+			prev := 0
+			for _, c := range cuts {
+				zw := gzip.NewWriter(&zb)
+				zw.Write(data[prev:c])
+				zw.Close()
+				prev = c
+			}
 			data = zb.Bytes()
 		}
 		if err := os.WriteFile(p, data, 0o644); err != nil {
